@@ -458,5 +458,94 @@ func genLookupdTables(repo string) (string, error) {
 		return true
 	})
 	sb.WriteString(lkStrList("lookupd_magics", magics))
+	// ---- the control skeleton of Handle (log calls left out): what happens on a short read,
+	// in every clause of the magic switch (the refusal must END the function: what follows the
+	// switch calls prot.NewClient, and prot is nil after the default clause) and after it
+	sb.WriteString(lkStrList("lookupd_Handle_shape", lkShape(p.fset, th.Body.List)))
 	return sb.String(), nil
+}
+
+// lkShape: statements as "call f" / "set x" / "return" / "if c {" ... "}" / "switch t {"
+// "case ...:" / "default:" ... "}"; calls of logf are skipped, declarations too.
+func lkShape(fset *token.FileSet, l []ast.Stmt) []string {
+	var out []string
+	callOf := func(e ast.Expr) (string, bool) {
+		if u, ok := e.(*ast.UnaryExpr); ok {
+			e = u.X
+		}
+		c, ok := e.(*ast.CallExpr)
+		if !ok {
+			return "", false
+		}
+		name := lkCallee(c)
+		for _, a := range c.Args { // the code a SendResponse carries
+			if cv, ok := a.(*ast.CallExpr); ok && len(cv.Args) == 1 {
+				if bl, ok := cv.Args[0].(*ast.BasicLit); ok && bl.Kind == token.STRING {
+					sv, _ := strconv.Unquote(bl.Value)
+					name += " " + sv
+				}
+			}
+		}
+		return name, true
+	}
+	for _, st := range l {
+		switch x := st.(type) {
+		case *ast.ExprStmt:
+			if n, ok := callOf(x.X); ok {
+				if n != "logf" {
+					out = append(out, "call "+n)
+				}
+			} else {
+				out = append(out, "expr "+lkExprText(fset, x.X))
+			}
+		case *ast.AssignStmt:
+			if n, ok := callOf(x.Rhs[0]); ok && len(x.Rhs) == 1 {
+				out = append(out, "call "+n)
+			} else {
+				var ls []string
+				for _, e := range x.Lhs {
+					ls = append(ls, lkExprText(fset, e))
+				}
+				out = append(out, "set "+strings.Join(ls, ","))
+			}
+		case *ast.ReturnStmt:
+			out = append(out, "return")
+		case *ast.IfStmt:
+			out = append(out, "if "+lkExprText(fset, x.Cond)+" {")
+			out = append(out, lkShape(fset, x.Body.List)...)
+			if x.Else != nil {
+				out = append(out, "} else {")
+				if b, ok := x.Else.(*ast.BlockStmt); ok {
+					out = append(out, lkShape(fset, b.List)...)
+				} else {
+					out = append(out, lkShape(fset, []ast.Stmt{x.Else})...)
+				}
+			}
+			out = append(out, "}")
+		case *ast.SwitchStmt:
+			out = append(out, "switch "+lkExprText(fset, x.Tag)+" {")
+			for _, cc := range x.Body.List {
+				cl := cc.(*ast.CaseClause)
+				if len(cl.List) == 0 {
+					out = append(out, "default:")
+				} else {
+					var es []string
+					for _, e := range cl.List {
+						if bl, ok := e.(*ast.BasicLit); ok {
+							es = append(es, bl.Value) // literally (lkExprText folds blanks)
+						} else {
+							es = append(es, lkExprText(fset, e))
+						}
+					}
+					out = append(out, "case "+strings.Join(es, ",")+":")
+				}
+				out = append(out, lkShape(fset, cl.Body)...)
+			}
+			out = append(out, "}")
+		case *ast.DeclStmt:
+		default:
+			out = append(out, "stmt "+lkExprText(fset, st))
+		}
+	}
+	return out
 }
